@@ -14,8 +14,21 @@ def _h(case, salt=0):
     return zlib.crc32(json.dumps(case, sort_keys=True, default=str).encode()) + salt
 
 
+HI_OPS = ("readback", "getitem", "setitem", "ufunc", "reduce", "scan", "concat", "pad", "where", "subset", "ragged_slice", "col")
+
+
 def variants(prop, case):
     """Implementation-side realisations of one abstract case.  Level A does not distinguish them (C06)."""
+    out = _variants(prop, case)
+    if case[0] in HI_OPS:
+        js = json.dumps(case)
+        if '"i2"' in js or '"u2"' in js:
+            # the same case in the top 16 bits of the 64-bit / 32-bit dtypes (harness/exec_ragged.py, hi_ok decides validity)
+            out = out + [dict(out[-1], hi=[48, 16][_h(case, 5) % 2])]
+    return out
+
+
+def _variants(prop, case):
     op = case[0]
     h = _h(case)
     if op == "readback":
